@@ -137,6 +137,11 @@ class ReadCanon:
                         it["conv_src"] = c[1]
                     elif tgt in INT_TYPES:
                         cur_ty = tgt
+                elif c[0] == "from_int":
+                    a = self.adt(c[1])
+                    if a is not None and a["kind"] == "Enum":
+                        kind, target = "enum", c[1]
+                        it["conv_src"] = cur_ty
                 elif c[0] == "try_from":
                     if c[2].endswith("::DateTime"):
                         kind, target = "datetime", c[2]
